@@ -27,6 +27,8 @@
 //!       of n+1 entries in which entry i only balances after exactly entries 0..i-1
 //!   E   fake+real FS: refused ledgers (syntax fault, false assertion, unbalanced transaction; one fault or two of
 //!       different kinds in both orders at every position): delivered prefix and winning fault must equal the unsplit ledger's
+//!   RS  real FS: symbolic links (file alias, directory link, glob over a link, root through a link: MUST where both
+//!       readings of "relative to the including file" agree; a linked file elsewhere with includes of its own: DON'T-CARE)
 //!   N   fake FS: an include that matches nothing (every 1-line tree x style; nested 2-line shapes x uniform style)
 //!   C   fake FS: recursive include (chain depth k, back edge to ancestor j, chain style, back-edge spelling)
 //!   X   fake FS: the same file included twice through two different spellings (sequence is DON'T-CARE)
@@ -1520,6 +1522,149 @@ fn judge_fault(fs: &str, l: &Laid, texts: &[String], b: &Baseline, env: Option<&
 }
 
 // ------------------------------------------------------------------------------------------
+// Family RS: symbolic links (real FS only)
+
+#[derive(Clone, Copy, Debug, PartialEq, Eq)]
+enum Sym {
+    /// the include names `lnk.dat`, a link to the file next to it
+    FileAliasSameDir,
+    /// the include goes through `ld`, a link to the directory of the file
+    DirLink,
+    /// the include is the glob `l*.dat` matching only the link next to the file
+    GlobOverAlias,
+    /// the include names a link whose target lives (with everything it includes) in another directory
+    FileLinkElsewhere,
+    /// the same, and next to the link sits a decoy with the name the target's own include asks for
+    FileLinkElsewhereWithDecoy,
+    /// the root itself is loaded through a link next to it / in another directory
+    RootAliasSameDir,
+    RootLinkElsewhere,
+}
+const SYMS: [Sym; 7] = [Sym::FileAliasSameDir, Sym::DirLink, Sym::GlobOverAlias, Sym::FileLinkElsewhere, Sym::FileLinkElsewhereWithDecoy, Sym::RootAliasSameDir, Sym::RootLinkElsewhere];
+
+struct SymCase {
+    l: Laid,
+    /// (link, target as written into the link)
+    links: Vec<(String, String)>,
+    root: String,
+    /// both readings of "relative to the including file" (next to the link / next to the file read) give the same tree
+    determined: bool,
+}
+
+/// chain of depth k (k = 1: root -> f1; k = 2: root -> f1 -> f2), file i in <root dir>/d1/../di/ci.dat; level `lvl` is
+/// reached through a link of kind `sym`
+fn layout_symlink(base: &str, k: usize, lvl: usize, sym: Sym) -> SymCase {
+    let rd = root_dir(base);
+    let elsewhere = matches!(sym, Sym::FileLinkElsewhere | Sym::FileLinkElsewhereWithDecoy);
+    // directory of file i: normally nested d1/d2; with a link elsewhere the files from `lvl` on live under store/
+    let dir_of = |i: usize| -> String {
+        let mut d = if elsewhere && i >= lvl { format!("{}/store", base) } else { rd.clone() };
+        let from = if elsewhere && i >= lvl { lvl } else { 1 };
+        for j in from..=i {
+            d = format!("{}/d{}", d, j);
+        }
+        d
+    };
+    let mut links = vec![];
+    let mut hidden = BTreeMap::new();
+    let mut dirs = BTreeSet::new();
+    // include text of file i-1 for file i
+    let mut inc = |i: usize| -> String {
+        if i != lvl {
+            return format!("d{}/c{}.dat", i, i);
+        }
+        let parent_dir_path = if i == 1 { rd.clone() } else { dir_of(i - 1) };
+        match sym {
+            Sym::FileAliasSameDir => {
+                links.push((format!("{}/lnk.dat", dir_of(i)), format!("c{}.dat", i)));
+                format!("d{}/lnk.dat", i)
+            }
+            Sym::GlobOverAlias => {
+                links.push((format!("{}/lnk.dat", dir_of(i)), format!("c{}.dat", i)));
+                format!("d{}/l*.dat", i)
+            }
+            Sym::DirLink => {
+                links.push((format!("{}/ld", parent_dir_path), format!("d{}", i)));
+                format!("ld/c{}.dat", i)
+            }
+            Sym::FileLinkElsewhere | Sym::FileLinkElsewhereWithDecoy => {
+                let link_dir = format!("{}/d{}", parent_dir_path, i);
+                dirs.insert(link_dir.clone());
+                links.push((format!("{}/c{}.dat", link_dir, i), format!("{}/c{}.dat", dir_of(i), i)));
+                if sym == Sym::FileLinkElsewhereWithDecoy && i < k {
+                    hidden.insert(format!("{}/d{}/c{}.dat", link_dir, i + 1, i + 1), HIDDEN.to_string());
+                }
+                format!("d{}/c{}.dat", i, i)
+            }
+            _ => format!("d{}/c{}.dat", i, i),
+        }
+    };
+    let contents: Vec<String> = if k == 1 {
+        vec![format!("{}include {}\n\n{}", ENTRIES[0], inc(1), ENTRIES[5]), ENTRIES[1..5].concat()]
+    } else {
+        vec![format!("{}include {}\n\n{}", ENTRIES[0], inc(1), ENTRIES[5]), format!("{}include {}\n\n{}", ENTRIES[1], inc(2), ENTRIES[4]), ENTRIES[2..4].concat()]
+    };
+    let mut l = Laid { root: format!("{}/main.ledger", rd), files: vec![], hidden, dirs, expect: vec![], lines: vec![], groups: vec![], in_group: BTreeSet::new(), nomatch: None };
+    l.files.push((l.root.clone(), contents[0].clone()));
+    for i in 1..=k {
+        l.files.push((format!("{}/c{}.dat", dir_of(i), i), contents[i].clone()));
+    }
+    l.expect = if k == 1 { vec![(0, 0), (1, 1), (1, 2), (1, 3), (1, 4), (0, 5)] } else { vec![(0, 0), (1, 1), (2, 2), (2, 3), (1, 4), (0, 5)] };
+    for _ in 0..k {
+        l.lines.push(Line { style: TwinLit, text: String::new(), hidden: vec![], multi: false });
+    }
+    let mut root = l.root.clone();
+    let mut determined = true;
+    match sym {
+        Sym::RootAliasSameDir => {
+            links.push((format!("{}/root-link.ledger", rd), "main.ledger".into()));
+            root = format!("{}/root-link.ledger", rd);
+        }
+        Sym::RootLinkElsewhere => {
+            let d = format!("{}/elsewhere", base);
+            l.dirs.insert(d.clone());
+            links.push((format!("{}/root.ledger", d), l.root.clone()));
+            root = format!("{}/root.ledger", d);
+            determined = false;
+        }
+        // a linked file in another directory that has an include of its own: next to the link or next to the file?
+        Sym::FileLinkElsewhere | Sym::FileLinkElsewhereWithDecoy => determined = lvl == k,
+        _ => {}
+    }
+    SymCase { l, links, root, determined }
+}
+
+fn judge_symlink(env: &RealEnv, b: &Baseline, c: &SymCase, sym: Sym) -> Outcome {
+    let base = format!("{}/t", env.scratch);
+    materialise(&c.l, &base, 0);
+    for (link, target) in &c.links {
+        std::fs::create_dir_all(parent_dir(link)).expect("mkdir");
+        std::os::unix::fs::symlink(target, link).expect("symlink");
+    }
+    let (seen, res) = collect(&b.known, &load::new_loader(PathBuf::from(&c.root)));
+    let verdict = judge_sequence("real", &c.l, b, &seen, &res, &real_norm).or_else(|| {
+        let outs = cli_outputs(&c.root);
+        outs.iter().enumerate().find(|(i, o)| **o != env.cli_base[*i]).map(|(i, o)| Outcome::violation(format!("cli-differs/real/{}", CLI_CMDS[i]), format!("--- unsplit ---\n{}--- split ---\n{}", env.cli_base[i], o)))
+    });
+    if !c.determined {
+        // the statement does not say whether "the including file" is the link or the file it points to
+        let how = match (&verdict, &res) {
+            (None, _) => "includes-resolved-next-to-the-file-read".to_string(),
+            (Some(_), Err(e)) => format!("includes-resolved-next-to-the-link/{}", load_err_variant(e)),
+            (Some(_), Ok(())) => "includes-resolved-next-to-the-link/another-file-delivered".to_string(),
+        };
+        return Outcome::dont_care(format!("symlink/{:?}/{}", sym, how));
+    }
+    match verdict {
+        None => Outcome::pass(format!("symlink/{:?}/same", sym)),
+        Some(o) => match o.verdict {
+            crate::fw::Verdict::Violation { sig, detail } => Outcome::violation(format!("{}/symlink-{:?}", sig, sym), detail),
+            _ => o,
+        },
+    }
+}
+
+// ------------------------------------------------------------------------------------------
 // Family K: scale — one wildcard matching many files, long include chains, names whose order needs care
 
 /// Ledger of n+1 entries in which entry i (i >= 1) only balances when exactly the entries 0..i-1 were booked before it:
@@ -2433,6 +2578,41 @@ fn run_inner(ctx: &mut Ctx) {
         }
     }
     let _ = (grp3, grp3_scrambled);
+    // RS: symbolic links (real FS): chain depth 1..2 x linked level x 7 kinds of link
+    let mut n_rs = 0u64;
+    for k in 1..=2usize {
+        for lvl in 1..=k {
+            for sym in SYMS {
+                if matches!(sym, Sym::RootAliasSameDir | Sym::RootLinkElsewhere) && lvl != 1 {
+                    continue;
+                }
+                n_rs += 1;
+                if !ctx.next_is_mine() {
+                    ctx.skip_cases(1);
+                    continue;
+                }
+                let c = layout_symlink(&real_base, k, lvl, sym);
+                let rs_class = std::cell::RefCell::new(String::new());
+                ctx.case(
+                    || {
+                        let links: Vec<String> = c.links.iter().map(|(a, t)| format!("=== {} -> {} (symlink) ===\n", a, t)).collect();
+                        format!("[RS real FS] chain depth {}, level {} reached through {:?}; root given as {}\n{}{}", k, lvl, sym, c.root, render(&c.l), links.concat()).replace(&env.scratch, "<scratch>")
+                    },
+                    || {
+                        let o = judge_symlink(&env, &b, &c, sym);
+                        *rs_class.borrow_mut() = o.class.clone();
+                        o
+                    },
+                );
+                // the family is tiny: make its classes visible as counters as well
+                let cl = rs_class.borrow().clone();
+                if !cl.is_empty() {
+                    ctx.count(&format!("RS {}", cl), 1);
+                }
+            }
+        }
+    }
+    ctx.fact("family_RS_cases", n_rs);
     // RE: refused ledgers on the real FS (loader, report::process, CLI): every 1-line shape whose line has one child
     let mut n_re = 0u64;
     for (what, texts) in &faulty {
